@@ -95,6 +95,12 @@ def datetime_fmt(r, t: _dt.datetime, complete=None):
         det = False
         if not toks:
             toks = ["%Y"]
+        # 29 February (or day 366) without a year would be read in the default year 1900, which has no such day:
+        # a partial format that states the day of a leap day also states the year
+        if (t.month, t.day) == (2, 29) and not any(x in toks for x in ydirs):
+            toks.append(ydirs[0])
+        if t.timetuple().tm_yday == 366 and any(x in toks for x in ("%j", "%-j")) and not any(x in toks for x in ydirs):
+            toks.append(ydirs[0])
     r.shuffle(toks)
     w = spec.wday_sun(t.year, t.month, t.day)
     if any(d in ("%a", "%A") for d in toks) and w in (2, 4):
